@@ -116,6 +116,12 @@ func genProg(rng *rand.Rand, depth int, eoas []common.Address, fresh func() comm
 			p.plan = append(p.plan, pstep{kind: "send-fresh", to: fresh(), val: big.NewInt(int64(rng.Intn(50)))})
 		case k >= 5 && depth > 1:
 			st := pstep{kind: "call", call: evmasm.CallKind(rng.Intn(4)), child: genProg(rng, depth-1, eoas, fresh), fail: evmasm.OnFail(rng.Intn(2))}
+			if len(genPcQueries) > 0 && st.call == evmasm.StaticCall {
+				// a write inside a static frame burns all the gas the frame was given; what is left
+				// afterwards is so little that the different price of the precompile calls decides
+				// which later step runs out of gas
+				st.call = evmasm.Call
+			}
 			if st.call == evmasm.Call || st.call == evmasm.CallCode {
 				st.val = big.NewInt(int64(rng.Intn(30)))
 			}
